@@ -1,9 +1,135 @@
 import ALV.Common.Json
+import ALV.Model.C13
+import ALV.Spec.C13
+import ALV.Model.C04
+import ALV.Spec.C04
 namespace ALV.Driver.C13
-open ALV ALV.J
+open ALV ALV.J ALV.C13
 
-/-- stub: the C13 slice is not built yet -/
-def handle (entry : String) (_j : Json) : Except String Json :=
-  throw s!"C13: unknown entry {entry}"
+/-! All designs are evaluated at `Float` (the executable twin of the generic `[TrigField α]`
+definitions the theorems are about); results travel as the exact rational of their binary value. -/
+
+def fl (x : Float) : Json := floatToJson x
+def fls (l : List Float) : Json := arr fl l
+
+def coefsJson (s : Coefs Float) : Json :=
+  Json.mkObj [("num", fls s.num), ("den", fls s.den)]
+
+def pairsJson (l : List (Float × Float)) : Json :=
+  arr (fun p => Json.arr [fl p.1, fl p.2]) l
+
+def contractJson (c : Contract Float) : Json :=
+  Json.mkObj [
+    ("dc", optJson fl c.dc), ("nyquist", optJson fl c.nyquist),
+    ("points", pairsJson c.points), ("cos_points", pairsJson c.cosPoints),
+    ("pole_radius", optJson fl c.poleRadius), ("peak", optJson fl c.peak),
+    ("mono", intToJson c.mono)]
+
+/-- the model's own reading of the contract quantities (sanity: the Float twin meets the contract) -/
+def measuredJson (s : Coefs Float) (c : Contract Float) : Json :=
+  Json.mkObj [
+    ("dc", fl (dcGain s)), ("nyquist", fl (nyquistGain s)),
+    ("points", arr (fun (p : Float × Float) => fl (magSq s p.1)) c.points)]
+
+def strategyOf (s : String) : Except String Strategy :=
+  match s with
+  | "pole" => pure .pole
+  | "z" => pure .z
+  | "pole_exp" => pure .poleExp
+  | "z_exp" => pure .zExp
+  | _ => throw s!"C13: unknown lowpass/highpass strategy {s}"
+
+def resStrategyOf (s : String) : Except String ResStrategy :=
+  match s with
+  | "poles_exp" => pure .polesExp
+  | "freq_poles_exp" => pure .freqPolesExp
+  | "z_exp" => pure .zExp
+  | "freq_z_exp" => pure .freqZExp
+  | _ => throw s!"C13: unknown resonator strategy {s}"
+
+def design (s : Coefs Float) (c : Contract Float) : Json :=
+  Json.mkObj [("model", coefsJson s), ("spec", contractJson c), ("measured", measuredJson s c)]
+
+def sections (ss : List (Coefs Float)) (cs : List (Contract Float)) : Json :=
+  Json.mkObj [("model", arr coefsJson ss), ("spec", arr contractJson cs),
+              ("measured", Json.arr ((ss.zip cs).map fun p => measuredJson p.1 p.2))]
+
+/-- run the C04 difference equation (`fspec`, zero memory) on the designed coefficients -/
+def runFilter (s : Coefs Float) (xs : List Float) : List Float :=
+  match s.den with
+  | [] => []
+  | a0 :: as => ALV.C04.fspec s.num as a0 0.0 (List.replicate as.length 0.0) [] xs
+
+def handleOne (entry : String) (j : Json) : Except String Json := do
+  match entry with
+  | "lowpass" =>
+    let st ← strategyOf (← getStr (← field j "strategy"))
+    let c ← getFloat (← field j "cutoff")
+    pure <| design (lowpass st c) (lowpassSpec st c)
+  | "highpass" =>
+    let st ← strategyOf (← getStr (← field j "strategy"))
+    let c ← getFloat (← field j "cutoff")
+    pure <| design (highpass st c) (highpassSpec st c)
+  | "resonator" =>
+    let st ← resStrategyOf (← getStr (← field j "strategy"))
+    let f ← getFloat (← field j "freq")
+    let bw ← getFloat (← field j "bandwidth")
+    pure <| design (resonator st f bw) (resonatorSpec st f bw)
+  | "comb" =>
+    let st ← getStr (← field j "strategy")
+    let d ← getNat (← field j "delay")
+    let p ← getFloat (← field j "param")
+    let xs ← getList getFloat (← field j "xs")
+    let (s, alpha, y) ← match st with
+      | "fb" => pure (combFb d p, p, combFbSpec d p xs)
+      | "tau" => pure (combTau d p, Float.exp (-(Float.ofNat d / p)), combFbSpec d (Float.exp (-(Float.ofNat d / p))) xs)
+      | "ff" => pure (combFf d p, p, combFfSpec d p xs)
+      | _ => throw s!"C13: unknown comb strategy {st}"
+    pure <| Json.mkObj [("model", coefsJson s), ("run", fls (runFilter s xs)),
+                        ("spec", Json.mkObj [("alpha", fl alpha), ("out", fls y)])]
+  | "gammatone" =>
+    let st ← getStr (← field j "strategy")
+    let f ← getFloat (← field j "freq")
+    let bw ← getFloat (← field j "bandwidth")
+    match st with
+    | "sampled" =>
+      let ph ← getFloat (fieldD j "phase" (Json.int 0))
+      let eta ← getNat (fieldD j "eta" (Json.int 4))
+      if eta = 0 then pure <| Json.mkObj [("err", Json.str "AssertionError")]
+      else
+        let ss := gammatoneSampled f bw ph eta
+        pure <| sections ss (ss.map fun _ => gammatoneSectionContract f bw true)
+    | "slaney" =>
+      let ss := gammatoneSlaney f bw
+      pure <| sections ss (ss.map fun _ => gammatoneSectionContract f bw true)
+    | "klapuri" =>
+      let ss := gammatoneKlapuri f bw
+      pure <| sections ss (ss.map fun _ => gammatoneSectionContract f bw false)
+    | _ => throw s!"C13: unknown gammatone strategy {st}"
+  | "erb" =>
+    let st ← getStr (← field j "strategy")
+    let f ← getFloat (← field j "freq")
+    let hz ← getFloat (← field j "Hz")
+    match st with
+    | "gm90" => pure <| Json.mkObj [("model", fl (erbGm90 f hz))]
+    | "mg83" => pure <| Json.mkObj [("model", fl (erbMg83 f hz))]
+    | _ => throw s!"C13: unknown erb strategy {st}"
+  | "erb_constants" =>
+    let n ← getNat (← field j "n")
+    let r : Float × Float := gammatoneErbConstants n
+    pure <| Json.mkObj [("model", Json.arr [fl r.1, fl r.2])]
+  | _ => throw s!"C13: unknown entry {entry}"
+
+/-- `multi`: a list of requests answered in order (Stream-valued parameters: one constant design
+per instant) -/
+def handle (entry : String) (j : Json) : Except String Json := do
+  match entry with
+  | "multi" =>
+    let cs ← getArr (← field j "cases")
+    let rs ← cs.mapM fun c => do
+      let e ← getStr (← field c "entry")
+      handleOne e c
+    pure <| Json.mkObj [("results", Json.arr rs)]
+  | _ => handleOne entry j
 
 end ALV.Driver.C13
